@@ -364,7 +364,11 @@ impl ChessMove {
                 }
             }
 
-            if !ep && takes {
+            // a pawn that changes file onto an empty square captures en passant,
+            // whether or not the text spells out " e.p."
+            let ep_capture = moving_piece == Piece::Pawn
+                && m.get_source().get_file() != m.get_dest().get_file();
+            if !ep && !ep_capture && takes {
                 if board.piece_on(m.get_dest()).is_none() {
                     continue;
                 }
